@@ -246,7 +246,7 @@ def zoom_records(length, rng):
 class C20(Prop):
     ID = "C20"
     HARNESS = "c20"
-    THEOREMS = ["C20_bin_index_spec"]
+    THEOREMS = ["C20_bin_index_spec", "C20_per_base", "C20_bins", "C20_bins_nan_free", "C20_oob"]
     RULE = ("one case = one chromosome (length, value/entry layout) with a batch of queries (s, e, bins, statistic, missing, oob, "
             "reader hands over touching items or not).  Exhaustive block: every layout of <= 3 values (disjoint) / <= 3 entries "
             "(any overlap) on chromosomes of <= 5 bases (quick; <= 6 thorough) x every range [s,e) from 2 below 0 to 2 past the end x "
